@@ -9,6 +9,12 @@ type Font struct {
 	Subtype  string
 	Encoding string
 
+	// Differences holds the character codes that the /Differences array of the
+	// font's /Encoding dictionary redefines, as Unicode (ISO 32000-1 9.6.6.1).
+	// DecodeString consults it before the base encoding named by Encoding.
+	// It is nil for a font without /Differences.
+	Differences map[byte]rune
+
 	// Character width information
 	widths map[rune]float64
 
@@ -61,7 +67,7 @@ func (f *Font) IsStandardFont() bool {
 // Priority order:
 // 1. Use ToUnicode CMap if present (most accurate)
 // 2. Check for UTF-16 Byte Order Mark (BOM) - FEFF or FFFE
-// 3. Use font's Encoding property (standard encodings)
+// 3. Use font's Encoding property (standard encodings) under the font's Differences
 // 4. Fall back to raw bytes as string
 // All decoded strings are normalized to NFC for consistent embeddings
 func (f *Font) DecodeString(data []byte) string {
@@ -90,6 +96,9 @@ func (f *Font) DecodeString(data []byte) string {
 	// Priority 3: Use font's Encoding property
 	if f.Encoding != "" {
 		enc := GetEncoding(f.Encoding)
+		if len(f.Differences) > 0 {
+			enc = NewCustomEncoding(enc, f.Differences)
+		}
 		decoded = enc.DecodeString(data)
 		return NormalizeUnicode(decoded)
 	}
